@@ -181,6 +181,11 @@ def curated_behaviour():
     specs.append(G('Deref', [('Star', '()'), ('Bang', '()'), ('Ident', 'u32')], [
         ('Deref', 'struct', [(None, ('tuple', [(False, T('Star')), (True, N('Operand'))]))]),
         ('Operand', 'enum', [('Checked', ('tuple', [(True, N('Deref')), (False, T('Bang'))])), ('Var', ('tuple', [(True, T('Ident'))]))])]))
+    # lookaheads that reach the last-discovered state only in the re-propagation phase: < < - - - - >
+    specs.append(G('Expr', [('Dash', '()'), ('Lt', '()'), ('Gt', '()')], [
+        ('Expr', 'enum', [('Recv', ('tuple', [(False, T('Lt')), (False, T('Dash')), (True, N('Expr'))])),
+                          ('Hole', ('tuple', [(False, T('Dash')), (False, T('Dash')), (False, T('Dash'))])),
+                          ('Group', ('tuple', [(False, T('Lt')), (True, N('Expr')), (False, T('Gt'))]))])]))
     # the user's own tokens / types named like the generator's helper items (end-of-input marker included)
     specs.append(G('File', [('Num', 'u32'), ('Eof', '()')], [
         ('File', 'struct', [(None, ('named', [('lines', N('Lines')), (None, T('Eof'))]))]),
